@@ -35,7 +35,7 @@ def worker(job):
     prog = runner.Progress(job.get("_progress"))
     cfg = rigp.Cfg.from_json(job["cfg"])
     res = {"cases": 0, "bad": [], "classes": {}, "inconclusive": [], "legit_accepted": 0, "forged_rejected": 0, "reports": 0}
-    st = {"serial": job["seed"] * 100000}
+    st = {"serial": job["seed"] * 100000, "rng": random.Random(job["seed"]), "timeouts": 0}
 
     def handler(agent, req):
         def f(req):
@@ -43,6 +43,11 @@ def worker(job):
                 st["agent_err"] = req.err
                 return None
             c = st["case"]
+            # a realistic engine clock: time advances; now and then the agent "restarts" (boots+1, time back to a small value)
+            if st["rng"].random() < 0.15:
+                agent.boots, agent.time = agent.boots + 1, st["rng"].randrange(0, 50)
+            else:
+                agent.time += st["rng"].randrange(0, 400)
             st["serial"] += 2
             forged_serial, genuine_serial = st["serial"], st["serial"] + 1
             st["serials"] = (forged_serial, genuine_serial)
@@ -75,10 +80,26 @@ def worker(job):
             res["inconclusive"].append("agent could not parse: %s" % st.pop("agent_err"))
             continue
         if out[0] == "exc" and out[1]["cls"] == "TimeoutError":
-            res["inconclusive"].append("timeout (load?) on %s" % cls)
-            drv.close()
-            drv = mk()
+            # every case ends with a genuine reply, so a timeout means it was not delivered: load - or the client
+            # has gone deaf (e.g. drops everything after an agent restart).  Three in a row on one session, each
+            # answered by the agent within 0.3 s, is a verdict; fewer is inconclusive.
+            log = agent.log[-6:]
+            rx = [t for k, t, _ in log if k == "rx"]
+            tx = [t for k, t, _ in log if k == "tx"]
+            answered = bool(rx and tx and tx[-1] - rx[-1] < 0.3e9 and tx[-1] > rx[-1])
+            st["timeouts"] = st["timeouts"] + 1 if answered else 0
+            if st["timeouts"] >= 3:
+                if len(res["bad"]) < 400:
+                    res["bad"].append({"sig": "genuine-dropped", "msg": "[%s] three consecutive requests timed out although the agent sent a genuine, correctly "
+                                       "authenticated reply to each within 0.3 s (engine boots/time now %d/%d)" % (cfg.key(), agent.boots, agent.time),
+                                       "case": c, "cfgkey": cfg.key()})
+                st["timeouts"] = 0
+                drv.close()
+                drv = mk()
+            else:
+                res["inconclusive"].append("timeout on %s (answered=%s)" % (cls, answered))
             continue
+        st["timeouts"] = 0
         fs, gs = st.get("serials", (None, None))
         bad = None
         if c["body"] == "report":
